@@ -1,6 +1,8 @@
 use crate::util::Tier;
 
 pub mod c01;
+pub mod c03;
+pub mod c04;
 pub mod c05;
 pub mod c06;
 pub mod c08;
@@ -17,6 +19,8 @@ pub fn dispatch(id: &str, tier: Tier, seed: u64, rest: &[String]) -> i32 {
     match id {
         "selftest" => selftest::main(),
         "C01" => c01::main(tier, seed),
+        "C03" => c03::main(tier, seed),
+        "C04" => c04::main(tier, seed),
         "C05" => c05::main(tier, seed),
         "C06" => c06::main(tier, seed),
         "C08" => c08::main(tier, seed, rest),
